@@ -31,6 +31,12 @@ def dispatch(prop, tier):
     if prop == "C19":
         from . import ctl_check
         return ctl_check.check(prop, tier)
+    if prop == "C18":
+        from . import units_check
+        return units_check.check(prop, tier)
+    if prop == "C17":
+        from . import ir_check
+        return ir_check.check(prop, tier)
     raise MachineryError("no check for %s" % prop)
 
 
@@ -57,6 +63,12 @@ def main(argv):
             if mod == "Controls":
                 from . import ctl_check
                 return ctl_check.replay(argv[1])
+            if mod == "Units":
+                from . import units_check
+                return units_check.replay(argv[1])
+            if mod == "SharpIR":
+                from . import ir_check
+                return ir_check.replay(argv[1])
             raise MachineryError("cannot replay module %s" % mod)
         prop = argv[0]
         tier = argv[1] if len(argv) > 1 else os.environ.get("VERIF_TIER", "quick")
